@@ -49,6 +49,15 @@ def main(argv):
     progs = {c: mir.Program(inline.normalise(d)) for c, d in fs.items()}
     mod = importlib.import_module("props." + prop.lower())
     ctx = Ctx(prop, progs, tier)
+    # what the normalisation passes did to this tree before the rules ran (sa/inline.py, sa/lower.py)
+    ctx.counters["normalisation"] = {
+        c: {
+            "bodies": len(progs[c].bodies),
+            "helpers_inlined": [list(x) for x in (progs[c].facts.get("inlined") or [])][:40],
+            "adaptor_calls_lowered": len(progs[c].facts.get("lowered") or []),
+        }
+        for c in sorted(progs)
+    }
     for cfg in sorted(progs):
         ctx.config = cfg
         ctx.prog = progs[cfg]
